@@ -99,6 +99,14 @@ def cases(tier, seed):
                 for policy in ("zero", "drop"):
                     for agg in ("all", "pc_cf"):
                         out.append(dict(seed=seed, bg=S.bg_for(setup), probes=[[st, loc]], cfg=S.cfg_for(setup, agg, policy, 100)))
+    # a unit counted almost completely: its percentage is a hair below the threshold (it is still outstanding)
+    for st in ("nonrep_hair", "nonrep_hair2"):
+        for loc in ("pop0", "newcounty"):
+            for setup in ("np1", "np2", "ga1", "bs1"):
+                for policy in ("drop", "zero"):
+                    for thr in (100, 50):
+                        cfg = S.cfg_for(setup, "all", policy, thr)
+                        out.append(dict(seed=seed, bg=S.bg_for(setup), probes=[[st, loc]], cfg=cfg))
     # a reporting threshold of 0 (every unit in the feed counts as reporting)
     for st_loc in S.probe_types(statuses=["reporting", "nonrep0", "nonrep_partial", "unexpected", "zero_baseline", "missing"], locations=["pop0", "newcounty"]):
         for setup in ("np1", "ga1", "bs1"):
